@@ -814,3 +814,6 @@ Proof.
   - intros i j d e p q Hd He Hp Hq. exact (H4 i d Hd j e He p Hp q Hq).
   - exact H5.
 Qed.
+
+Lemma equiv_on_refl_v S c : equiv_on S c c.
+Proof. split; intros v Hv; exists v; split; done. Qed.
